@@ -845,7 +845,16 @@ theorem C07_placement_shard (sizes : List Nat) (m : Nat) (al : Option Nat) (thr 
   have := List.mem_zipIdx hmem
   exact ⟨by have := this.2.1; simpa using this, rfl⟩
 
--- non-vacuity
+-- non-vacuity of the hypotheses, and their necessity where they exclude something
+example : (reorder [(0, [1, 2]), (2, [3]), (3, [4])] [2, 0, 1]).Perm [(0, [1, 2]), (2, [3]), (3, [4])] := by
+  decide
+example : ∀ p ∈ [(2, some 9), (1, none)], p.1 ∈ [1, 2, 2] := by decide
+-- without `total ≠ 1` the name does not depend on the index (a single shard keeps the base name)
+example : shardFilename "m.data".toList 1 1 none = shardFilename "m.data".toList 2 1 none := by decide
+-- overlapping writes are order dependent: the disjointness hypothesis of C07_readback is needed
+example : readAt (applyWrites [] [(0, [1, 1]), (1, [2])]) 0 2 ≠ [1, 1] := by decide
+example : posixSplit (shardFilename "a/b//m.v1.data".toList 2 3 none) =
+    ("a/b".toList, "m-00002-of-00003.v1.data".toList) := by decide
 example : computeInfos (some 1) 100 [3, 5000, 0, 7] = [⟨0, 3⟩, ⟨4096, 5000⟩, ⟨9096, 0⟩, ⟨9096, 7⟩] := by
   decide
 example : shardRaw id 10 none 0 [3, 5, 9, 20, 1, 0] = [[3, 5], [9], [20], [1, 0]] := by decide
